@@ -328,6 +328,20 @@ func Workers() int {
 // accounted for (e.g. reported as a violation because it originated in the code under test).
 var PanicHook func(val any, stack string) bool
 
+// Guard is deferred at the top of goroutines a check starts itself: a panic is offered to PanicHook
+// (violation if it originated in the code under test) and is an instrument error otherwise.
+func Guard() {
+	if e := recover(); e != nil {
+		st := make([]byte, 1<<14)
+		st = st[:runtime.Stack(st, false)]
+		if PanicHook != nil && PanicHook(e, string(st)) {
+			return
+		}
+		fmt.Fprintf(os.Stderr, "instrument error: panic in goroutine: %v\n%s\n", e, st)
+		os.Exit(2)
+	}
+}
+
 // Parallel runs fn(worker, item) for item in [0,n) on Workers() goroutines.
 // A panic inside fn is re-raised as an instrument error after all workers
 // stopped (checks that want to treat engine panics as violations must
